@@ -11,6 +11,7 @@ import (
 	"encoding/json"
 	"errors"
 	"fmt"
+	"reflect"
 	"regexp"
 	"sort"
 	"strconv"
@@ -1127,6 +1128,9 @@ func runParse(c *ctx, prop string) error {
 	if prop == "C13" {
 		c13ByteLevel(c, rng, shards)
 	}
+	if prop == "C03" || prop == "C09" {
+		c03MergeLiterals(c)
+	}
 	c.res.Rule = "documents from the grammar-directed generator (every step kind and shorthand, primary x alias key combinations, three plugin forms, matrices with adjustments, caches, unknown extras with nested values of every YAML scalar kind incl. timestamps / huge ints / integral floats, groups nested to depth 4, YAML look-alike strings) rendered as block YAML, flow YAML or JSON, through the real Parse; compared with the model: typed pipeline dump, warning kinds in order, hard-error class, JSON normal form (order-preserving). Distinct by document text."
 	mm, total, err := core.RunSessions(c.driver, shards, 20, 0)
 	c.res.ModelRequests = total
@@ -1871,5 +1875,81 @@ func c13ByteLevel(c *ctx, rng *core.Rand, shards []*core.Session) {
 		} else if yerr != nil {
 			c.res.Fail(core.OracleFailure{What: "YAML marshalling fails after a usable parse (mutated document)", Input: desc, Got: yerr.Error()})
 		}
+	}
+}
+
+// c03MergeLiterals: hand-written documents whose steps get their fields through `<<` merges reached through other
+// merges, with the value each field must have in the JSON normal form written out by hand (the YAML merge rules:
+// a mapping's own keys beat what it merges, wherever they are written; earlier sources beat later ones). The
+// expected values do not come from any decoder.
+func c03MergeLiterals(c *ctx) {
+	type want struct {
+		path []any // keys / indices into the decoded JSON output
+		val  any
+	}
+	cases := []struct {
+		doc   string
+		wants []want
+	}{
+		{"base: &base\n  timeout_in_minutes: 10\n  agents: {queue: default}\ndocker: &docker\n  <<: *base\n  timeout_in_minutes: 30\n  agents: {queue: docker}\nsteps:\n  - <<: *docker\n    command: make\n  - group: g\n    steps:\n      - <<: *docker\n        command: inner\n",
+			[]want{{[]any{"steps", 0, "timeout_in_minutes"}, float64(30)}, {[]any{"steps", 0, "agents", "queue"}, "docker"}, {[]any{"steps", 0, "command"}, "make"},
+				{[]any{"steps", 1, "steps", 0, "timeout_in_minutes"}, float64(30)}, {[]any{"steps", 1, "steps", 0, "agents", "queue"}, "docker"}}},
+		{"base: &base {image: ruby, tag: one}\nmid: &mid {<<: *base, image: golang}\nother: &other {image: python, extra: yes-please}\nsteps:\n  - command: x\n    <<: [*mid, *other]\n",
+			[]want{{[]any{"steps", 0, "image"}, "golang"}, {[]any{"steps", 0, "tag"}, "one"}, {[]any{"steps", 0, "extra"}, "yes-please"}}},
+		{"l0: &l0 {b: 0, c: 0, a: 0}\nl1: &l1 {<<: *l0, b: 1}\nl2: &l2 {<<: *l1, c: 2}\nsteps:\n  - label: top\n    command: x\n    <<: *l2\n",
+			[]want{{[]any{"steps", 0, "a"}, float64(0)}, {[]any{"steps", 0, "b"}, float64(1)}, {[]any{"steps", 0, "c"}, float64(2)}, {[]any{"steps", 0, "label"}, "top"}}},
+		{"common: &common {A: \"1\", B: \"2\", C: \"3\"}\nenv:\n  <<: *common\n  B: \"9\"\nsteps:\n  - command: x\n    env:\n      <<: *common\n      C: own\n",
+			[]want{{[]any{"env", "B"}, "9"}, {[]any{"env", "A"}, "1"}, {[]any{"steps", 0, "env", "C"}, "own"}, {[]any{"steps", 0, "env", "B"}, "2"}}},
+	}
+	for _, cs := range cases {
+		desc := map[string]any{"document": cs.doc}
+		var p *pipeline.Pipeline
+		var err error
+		if pn, msg := guard(func() { p, err = pipeline.Parse(strings.NewReader(cs.doc)) }); pn || p == nil || (err != nil && !warning.Is(err)) {
+			c.res.Fail(core.OracleFailure{What: "a document with merges reached through merges does not parse", Input: desc, Got: fmt.Sprint(msg, err)})
+			continue
+		}
+		for _, leg := range []string{"json", "yaml"} {
+			var out any
+			if leg == "json" {
+				b, merr := json.Marshal(p)
+				if merr != nil || json.Unmarshal(b, &out) != nil {
+					c.res.Fail(core.OracleFailure{What: "marshalling fails on a document with merges", Input: desc, Got: fmt.Sprint(merr)})
+					continue
+				}
+			} else {
+				b, merr := yaml.Marshal(p)
+				if merr != nil || yaml.Unmarshal(b, &out) != nil {
+					c.res.Fail(core.OracleFailure{What: "marshalling fails on a document with merges", Input: desc, Got: fmt.Sprint(merr)})
+					continue
+				}
+			}
+			for _, w := range cs.wants {
+				cur := out
+				for _, step := range w.path {
+					switch k := step.(type) {
+					case string:
+						m, _ := cur.(map[string]any)
+						cur = m[k]
+					case int:
+						l, _ := cur.([]any)
+						if k < len(l) {
+							cur = l[k]
+						} else {
+							cur = nil
+						}
+					}
+				}
+				if iv, ok := cur.(int); ok {
+					cur = float64(iv)
+				}
+				c.res.OracleChecks++
+				if !reflect.DeepEqual(cur, w.val) {
+					c.res.Fail(core.OracleFailure{What: fmt.Sprintf("a field that comes through a merge reached through a merge has the wrong value in the %s form (a mapping's own keys beat what it merges)", leg), Input: desc, Got: fmt.Sprintf("%v = %v", w.path, cur), Want: fmt.Sprint(w.val)})
+				}
+			}
+		}
+		c.res.Case("merge-literal:"+cs.doc, true)
+		c.res.Hist("doc.hand-written-merge-chain")
 	}
 }
